@@ -8,6 +8,7 @@ import Driver.Timeout
 import Driver.Manager
 import Driver.Stream
 import Driver.Tls
+import Driver.Views
 open Anemo Anemo.Driver
 
 /-- state carried across lines by the stateful models -/
@@ -16,6 +17,7 @@ structure DState where
   tower : TowerState := {}
   router : RouterState := {}
   manager : ManagerState := {}
+  views : ViewsState := {}
 
 def step (st : DState) (line : String) : DState × String :=
   let toks := (line.trimAscii.toString.splitOn " ").filter (· ≠ "")
@@ -35,6 +37,9 @@ def step (st : DState) (line : String) : DState × String :=
       let (ms, o) := managerOp st.manager cmd args
       ({ st with manager := ms }, o)
     else if cmd.startsWith "tls." then (st, tlsOp cmd args)
+    else if cmd.startsWith "views." || cmd.startsWith "link." then
+      let (vs, o) := viewsOp st.views cmd args
+      ({ st with views := vs }, o)
     else if cmd.startsWith "stream." then (st, streamOp cmd args)
     else if cmd.startsWith "timeout." then (st, timeoutOp cmd args)
     else if cmd.startsWith "codegen." then (st, codegenOp cmd args)
